@@ -269,11 +269,9 @@ func c09JudgeFlight(c *evlog.Case, rp *c09Rep, comp, inClass string, env c09Env,
 						break
 					}
 				}
-			} else if env.MaxSize == protocol.MaxPacketBufferSize {
-				// per-datagram re-framing adds frame headers to a slice that was popped to
-				// fill the packet
-				kind += "|maxsize-at-buffer-size"
 			}
+			// (per-datagram builders: re-framing adds frame headers and PINGs to a slice that
+			// was popped to fill the packet; the overflow is draw dependent — one signature)
 		}
 		rp.viol("C09|"+comp+"|error-after-output"+kind+inClass, fmt.Sprintf("%d Initial datagram(s) carrying %d of %d ClientHello bytes were produced before the packer failed with: %v", len(res.Payloads), st.Covered, len(ch), res.Err), tr)
 		return "viol", st
